@@ -126,7 +126,10 @@ class H:
         def mk(i, seq):
             def body():
                 s = st["subs"][i]
-                for k in seq:
+                for j, k in enumerate(seq):
+                    if self.timed and j == 1 and ilv.run().clock < 1.0:
+                        # meet the window timer: continue emitting exactly when the first period elapses
+                        ilv.run().block(ilv.cur(), lambda: False, 1.0, "sleep")
                     if k == "N":
                         s.on_next(i)
                     elif k == "C":
@@ -187,7 +190,7 @@ def harnesses(tier):
 
 def bounds(tier, h):
     if h.timed:
-        return (1, 1) if tier == "quick" else (2, 1)
+        return (1, 0) if tier == "quick" else (2, 1)
     if len(h.seqs) == 3:
         return (1, 0)
     return (1, 0) if tier == "quick" else (2, 0)
